@@ -221,7 +221,7 @@ def run(ctx):
             continue
         seen.add(key)
         ctx.finding("helper:" + key, b["complaint"], {"kind": "failing-input", "case": b["case"]})
-    if broken and not ctx.findings:
+    if broken and not ctx.unknown_findings():
         ctx.finding("unproved", "proof/correspondence broken, no failing input found", {"kind": "broken-obligation", "broken": broken}, found_input=False)
     ctx.coverage["broken"] = [{"what": k, "info": i} for k, i in broken]
     ctx.coverage["correspondence_mismatches"] = len(mism)
